@@ -114,6 +114,29 @@ class Ref:
                 val[outs[0]] = self.fc(val[ins[0]], ins, outs[0], o)
             elif k in ("MAX_POOL_2D", "AVERAGE_POOL_2D"):
                 val[outs[0]] = self.pool(val[ins[0]], ins[0], outs[0], o, k == "MAX_POOL_2D")
+            elif k == "TRANSPOSE":
+                perm = self.const(ins[1])
+                if perm is None:
+                    raise Unsupported("dynamic permutation")
+                val[outs[0]] = np.transpose(val[ins[0]], [int(p) for p in perm.reshape(-1)])
+            elif k == "STRIDED_SLICE":
+                b, e, st = (self.const(ins[i]) for i in (1, 2, 3))
+                if b is None or e is None or st is None or any(int(v) != 1 for v in st.reshape(-1)) or \
+                        any(o.get(m, 0) for m in ("BeginMask", "EndMask", "EllipsisMask", "NewAxisMask", "ShrinkAxisMask")):
+                    raise Unsupported("general strided slice")
+                idx = tuple(slice(int(x0), int(x1)) for x0, x1 in zip(b.reshape(-1), e.reshape(-1)))
+                val[outs[0]] = val[ins[0]][idx]
+            elif k == "CONCATENATION":
+                qo = self.quant(outs[0])
+                if any(self.quant(i) != qo for i in ins) or o.get("FusedActivationFunction", 0):
+                    raise Unsupported("requantising concatenation")
+                val[outs[0]] = np.concatenate([val[i] for i in ins], axis=o.get("Axis", 0))
+            elif k == "PAD":
+                pads = self.const(ins[1])
+                if pads is None or self.quant(ins[0]) != self.quant(outs[0]):
+                    raise Unsupported("general pad")
+                (_, zp) = self.quant(ins[0])
+                val[outs[0]] = np.pad(val[ins[0]], [(int(a), int(b2)) for a, b2 in pads.reshape(-1, 2)], constant_values=zp[0])
             elif k == "RESHAPE":
                 val[outs[0]] = val[ins[0]].reshape(self.tens(outs[0])["shape"])
             elif k in ("RELU", "RELU6"):
